@@ -126,6 +126,54 @@ Definition value_convert_flt (src : cty) (bits tk : Z) (hd : bool) : fobs :=
     end
   end.
 
+(* ------------------------------------------------------------------ values without a data address *)
+(* A value may carry a type and no address (MPT_VALUE_INIT(type, 0)): every mpt_data_convert_*()
+   starts `val = 0; if (from) val = *from;`, such a value denotes the zero of its type.  [from]:
+   None = value._addr == 0.  What does NOT go through a converter is the raw copy of a value of
+   the very same type, memcpy(dest, src, size): [null_patched] = value_convert.c as patched by
+   docs/C07_null_raw_copy.diff (zero bytes for a null source); unpatched the copy reads through
+   the null address. *)
+Definition src_val (from : option Z) : Z := match from with Some v => v | None => 0 end.
+
+Definition int_conv_ok (sk val tk : Z) (hd : bool) : bool :=
+  match data_converter sk with
+  | ConvInt s => match convert_int s val (tty_of_code tk) hd with Done _ _ => true | _ => false end
+  | _ => false
+  end.
+
+Definition null_copy_faults (null_patched : bool) (sk tk : Z) (conv_ok hd : bool) : bool :=
+  hd && negb null_patched &&
+  match value_convert_c sk tk conv_ok false with VCopy _ => true | _ => false end.
+
+Definition value_convert_a (null_patched : bool) (sk : Z) (from : option Z) (tk : Z) (hd : bool) : cres :=
+  match from with
+  | Some v => value_convert sk v tk hd
+  | None =>
+    if null_copy_faults null_patched sk tk (int_conv_ok sk 0 tk hd) hd then CFault
+    else value_convert sk 0 tk hd
+  end.
+
+Definition value_convert_flt_a (null_patched : bool) (src : cty) (from : option Z) (tk : Z) (hd : bool) : fobs :=
+  match from with
+  | Some bits => value_convert_flt src bits tk hd
+  | None =>
+    let ok := match fconv src 0 (tty_of_code tk) hd with FRefused _ => false | _ => true end in
+    if null_copy_faults null_patched (flt_code src) tk ok hd then FFault
+    else value_convert_flt src 0 tk hd
+  end.
+
+(* mpt_iterator_consume (one value, advance succeeds) on such a value: ConvModel.iterator_consume
+   around [value_convert_a] *)
+Definition iterator_consume_a (null_patched : bool) (sk : Z) (from : option Z) (tk : Z) (hd : bool) : cres :=
+  match tgt_cty (tty_of_code tk) with
+  | None => Refused BadType
+  | Some _ =>
+    match value_convert_a null_patched sk from tk hd with
+    | Done stv _ => Done stv sk
+    | r => r
+    end
+  end.
+
 (* ------------------------------------------------------------------ data_converter.c: the two wrappers *)
 Inductive wsrc := WNoFrom | WNullPtr | WObj.     (* from == 0 / *from == 0 / an object *)
 Definition is_obj (w : wsrc) : bool := match w with WObj => true | _ => false end.
